@@ -70,6 +70,9 @@ struct Case {
     /// How the document was put together (label only; the expected outcome is computed from `doc`).
     hint: String,
     doc: String,
+    /// by construction the document contains a function in which some path does not return
+    #[serde(default)]
+    model_invalid: bool,
     no_validate: bool,
     stub_ffi: bool,
     explicit_out: bool,
@@ -83,10 +86,45 @@ enum St {
     Let,
     If(Vec<St>, Option<Vec<St>>),
     Match(Vec<St>, Vec<St>),
+    /// k consecutive `check` statements (k branches on one path; a failed check ends the path)
+    Checks(u8),
+    /// `if .. {a0} else if .. {a1} .. [else {e}]`; each arm is the terminal (true) or a `let` (false)
+    Chain(Vec<bool>, Option<bool>),
 }
 
-fn st() -> impl Strategy<Value = Vec<St>> {
-    let leaf = prop_oneof![3 => Just(St::Terminal), 2 => Just(St::Let)];
+/// Does every path through the block reach the terminal statement?  (Written from the language: `if`
+/// without `else` and `check` fall through; a chain terminates iff it has a final `else` and every arm does.)
+fn terminates(b: &[St]) -> bool {
+    b.iter().any(|s| match s {
+        St::Terminal => true,
+        St::Let | St::Checks(_) => false,
+        St::If(a, Some(e)) => terminates(a) && terminates(e),
+        St::If(_, None) => false,
+        St::Match(a, e) => terminates(a) && terminates(e),
+        St::Chain(arms, e) => *e == Some(true) && arms.iter().all(|t| *t),
+    })
+}
+
+fn longest_branch_run(b: &[St]) -> usize {
+    b.iter()
+        .map(|s| match s {
+            St::Checks(k) => usize::from(*k),
+            St::Chain(a, _) => a.len(),
+            St::If(a, e) => 1 + longest_branch_run(a).max(e.as_deref().map_or(0, longest_branch_run)),
+            St::Match(a, e) => 1 + longest_branch_run(a).max(longest_branch_run(e)),
+            _ => 0,
+        })
+        .sum()
+}
+
+fn st(deep: bool) -> impl Strategy<Value = Vec<St>> {
+    let leaf = prop_oneof![
+        6 => Just(St::Terminal),
+        4 => Just(St::Let),
+        if deep { 4 } else { 1 } => prop_oneof![if deep { 1 } else { 3 } => 1u8..12, 2 => 12u8..70].prop_map(St::Checks),
+        if deep { 3 } else { 1 } => (prop::collection::vec(prop::bool::weighted(0.8), 1..60), prop::option::weighted(0.8, prop::bool::weighted(0.8)))
+            .prop_map(|(a, e)| St::Chain(a, e)),
+    ];
     let node = leaf.prop_recursive(3, 12, 3, |inner| {
         let block = prop::collection::vec(inner, 0..3);
         prop_oneof![
@@ -115,6 +153,27 @@ fn render_block(b: &[St], terminal: &str, depth: usize, n: &mut usize, out: &mut
                     render_block(e, terminal, depth + 1, n, out);
                 }
                 out.push_str(&format!("{pad}}}\n"));
+            }
+            St::Checks(k) => {
+                for _ in 0..*k {
+                    *n += 1;
+                    let fail = if terminal == "return x" { "return x" } else { "todo()" };
+                    out.push_str(&format!("{pad}check x != {} else {fail}\n", *n));
+                }
+            }
+            St::Chain(arms, e) => {
+                for (i, t) in arms.iter().enumerate() {
+                    *n += 1;
+                    let kw = if i == 0 { format!("{pad}if") } else { " else if".to_string() };
+                    let body = if *t { terminal.to_string() } else { format!("let v{} = x", *n) };
+                    out.push_str(&format!("{kw} x > {} {{\n{pad}    {body}\n{pad}}}", *n));
+                }
+                if let Some(t) = e {
+                    *n += 1;
+                    let body = if *t { terminal.to_string() } else { format!("let v{} = x", *n) };
+                    out.push_str(&format!(" else {{\n{pad}    {body}\n{pad}}}"));
+                }
+                out.push('\n');
             }
             St::Match(a, e) => {
                 *n += 1;
@@ -175,7 +234,7 @@ fn wrap(variant: u8, src: &str, extra: &str) -> String {
     }
 }
 
-fn case() -> impl Strategy<Value = Case> {
+fn case(focus: bool) -> impl Strategy<Value = Case> {
     let v = policies::VALID.len();
     let base = prop_oneof![
         3 => any::<u16>().prop_map(move |i| ("valid".to_string(), policies::VALID[idx(i, v)].to_string())),
@@ -197,26 +256,51 @@ fn case() -> impl Strategy<Value = Case> {
             (format!("valid + fails validation: {n}"), format!("{}\n{}", policies::VALID[idx(i, v)], s.replace("command C ", "command Cx ").replace("publish C ", "publish Cx ")))
         }),
         // generated control-flow shapes: validity depends on whether every path ends in return/publish/finish
-        6 => (0u8..3, st(), prop::option::of(any::<u16>())).prop_map(move |(k, body, with)| {
-            let mut s = render_shape(k, &body);
-            if let Some(i) = with {
-                s = format!("{}\n{}", policies::VALID[idx(i, v)], s);
-            }
-            (format!("shape kind {k}"), s)
-        }),
+        if focus { 10_000 } else { 8 } => (if focus { 0u8..1 } else { 0u8..3 }, st(focus), prop::option::weighted(if focus { 0.2 } else { 0.5 }, any::<u16>()), prop::option::weighted(if focus { 0.6 } else { 0.35 }, (st(focus), prop::option::weighted(0.6, 1u8..70))))
+            .prop_map(move |(k, body, with, second)| {
+                let mut s = render_shape(k, &body);
+                let mut hint = format!("shape kind {k}");
+                if k % 3 == 0 && !terminates(&body) {
+                    hint.push_str(" [MODEL-INVALID]");
+                }
+                hint.push_str(&format!(" [run {}]", longest_branch_run(&body)));
+                if let Some((b2, checks)) = second {
+                    // a second, independent function: long runs of branches there must not influence the verdict
+                    // on the first one
+                    let mut b2 = b2;
+                    if let Some(kc) = checks {
+                        b2.insert(0, St::Checks(kc));
+                    }
+                    let mut out = String::from("function zz_second(x int) int {\n");
+                    let mut n = 1000;
+                    render_block(&b2, "return x", 1, &mut n, &mut out);
+                    out.push_str("}\n");
+                    if !terminates(&b2) {
+                        hint.push_str(" [MODEL-INVALID]");
+                    }
+                    hint.push_str(&format!(" [second run {}]", longest_branch_run(&b2)));
+                    s.push_str(&out);
+                }
+                if let Some(i) = with {
+                    s = format!("{}\n{}", policies::VALID[idx(i, v)], s);
+                }
+                (hint, s)
+            }),
     ];
     (
         base,
-        prop_oneof![6 => 0u8..3, 2 => 3u8..8],
-        prop::option::weighted(0.15, (any::<u16>(), any::<u16>())),
-        any::<bool>(),
-        prop::bool::weighted(0.15),
+        if focus { prop_oneof![1 => 0u8..3, 1 => 0u8..3] } else { prop_oneof![6 => 0u8..3, 2 => 3u8..8] },
+        prop::option::weighted(if focus { 0.0001 } else { 0.15 }, (any::<u16>(), any::<u16>())),
+        prop::bool::weighted(if focus { 0.2 } else { 0.5 }),
+        prop::bool::weighted(if focus { 0.0001 } else { 0.15 }),
         any::<bool>(),
         prop::bool::weighted(0.2),
     )
         .prop_map(|((hint, mut src), variant, del, no_validate, stub_ffi, explicit_out, verbose)| {
             let mut hint = hint;
+            let mut model_invalid = hint.contains("[MODEL-INVALID]");
             if let Some((p, l)) = del {
+                model_invalid = false;
                 // delete a short run of characters: mostly parse / compile errors
                 let chars: Vec<char> = src.chars().collect();
                 if !chars.is_empty() {
@@ -228,7 +312,7 @@ fn case() -> impl Strategy<Value = Case> {
             }
             let extra = if variant % 8 == 3 { policies::VALID[2] } else if variant % 8 == 4 { "function second_chunk() int { return 1 }" } else { "" };
             let doc = wrap(variant, &src, extra);
-            Case { hint: format!("{hint}; wrap {}", variant % 8), doc, no_validate, stub_ffi, explicit_out, verbose }
+            Case { hint: format!("{hint}; wrap {}", variant % 8), doc, model_invalid, no_validate, stub_ffi, explicit_out, verbose }
         })
 }
 
@@ -277,7 +361,12 @@ fn verdict(doc: &str, stub_ffi: bool) -> Verdict {
         };
         let module = match Compiler::new(&ast).stub_ffi(stub_ffi).compile() {
             Ok(m) => m,
-            Err(_) => return Verdict::CompileError,
+            Err(e) => {
+                if std::env::var_os("VH_C31_DEBUG").is_some() {
+                    eprintln!("COMPILE-ERROR {}", e.to_string().lines().take(3).collect::<Vec<_>>().join(" / "));
+                }
+                return Verdict::CompileError;
+            }
         };
         match validation_fails(&module) {
             Ok(true) => Verdict::FailsValidation,
@@ -368,6 +457,24 @@ fn check(c: &Case, info: &mut CaseInfo) -> CheckResult {
     ensure!(!stray, "cli: wrote a file other than the requested output", "{detail}");
     let success = code == Some(0);
 
+    // Independent of the library's tracer: a generated function in which some path does not return fails
+    // validation by the definition of the function rule, so once the document parses and compiles the tool must
+    // refuse it (unless validation is disabled).
+    if c.model_invalid && matches!(v, Verdict::FailsValidation | Verdict::Valid | Verdict::TraceError) {
+        info.label("model_invalid_function_compiles");
+        if !c.no_validate {
+            info.nontrivial();
+            ensure!(
+                !success && !wrote,
+                "cli: accepted a function that does not return on every path",
+                "{detail}"
+            );
+        }
+    }
+    if c.hint.contains("shape kind 0") && !c.hint.contains("(chars deleted)") && !c.model_invalid && v == Verdict::FailsValidation {
+        // the model and the library disagree in the other direction: not a claim of the statement, reported as a label
+        info.label("library_stricter_than_model");
+    }
     match v {
         Verdict::LibraryPanic | Verdict::TraceError => {
             // no expectation defined by the statement beyond: a module is only written on success
@@ -456,8 +563,19 @@ pub fn run(ctx: &Ctx) -> ! {
          code block, no front matter, policy-version 1, no policy block; flags --no-validate, --stub-ffi, --out, --verbose. \
          Non-trivial = library verdict is parse error, compile error, fails-validation or valid (expected exit status \
          and output-file presence are then defined)",
-        case,
+        || case(false),
         ctx.pick(192, 2000),
+        check,
+    );
+    rep.explore(
+        "cli_function_shapes",
+        "documents with one or two generated functions (plus, in 20%, a hand-written valid policy): bodies of nested \
+         if/else/match, runs of 1-69 consecutive check statements and else-if chains of 1-59 arms, each path ending or not \
+         ending in return; valid wrappers only; --no-validate in 20%.  Expected outcome from the generator's own \
+         termination model (a function with a path that does not return fails validation) as well as from the library. \
+         Non-trivial = the document compiles and the expected exit status is defined",
+        || case(true),
+        ctx.pick(128, 2000),
         check,
     );
     rep.finish()
